@@ -9,6 +9,7 @@
 //!                   3 field of a serialized struct (`a.v`)   4 element of a serialized Vec (`a[0]`)
 //!                   5 value of a serialized map (`a.k`)      6 round trip Value::from(x) -> T::deserialize -> Serde(t)
 //!                   7 Serde(Some(x))
+//!   literal family: `20 op pos fb b n c1..cn` (see main): an operand given by the source text of an integer literal
 //! Output: `0 z` integer result, `4 bits` float result (NaN canonicalised), `1 code` error,
 //!         `2` panic, `5 lt eq gt` comparison, `9` case not expressible / unexpected result kind.
 use minijinja::value::{Serde, Value, ValueKind};
@@ -117,23 +118,49 @@ fn enc(v: &Value, out: &mut Vec<String>) {
 fn main() {
     let env = Environment::new();
     serve(2, |c| {
-        let op = c.i64();
-        let fa = c.i64();
-        let a = c.big();
-        let fb = c.i64();
-        let b = c.big();
-        let (ta, va) = match operand(fa, &a, "a") {
-            Some(x) => x,
-            None => return vec!["9".into()],
-        };
-        let (tb, vb) = if op == 6 {
-            (String::new(), Value::from(()))
+        let mut op = c.i64();
+        let (ta, va, tb, vb);
+        if op == 20 {
+            // literal family: `20 op pos fb b n c1..cn` - one operand is an integer literal given by its source
+            // text (radix prefix, `_` separators, any width), on the left (pos 0) or on the right (pos 1);
+            // op 8 evaluates the literal alone
+            op = c.i64();
+            let pos = c.i64();
+            let fb = c.i64();
+            let b = c.big();
+            let text = c.str();
+            let other = if op == 6 || op == 8 {
+                (String::new(), Value::from(()))
+            } else {
+                match operand(fb, &b, "b") {
+                    Some(x) => x,
+                    None => return vec!["9".into()],
+                }
+            };
+            if pos == 0 {
+                (ta, va, tb, vb) = (text, Value::from(()), other.0, other.1);
+            } else {
+                // the variable is still called `b` in the text
+                (ta, vb, tb, va) = (other.0, other.1, text, Value::from(()));
+            }
         } else {
-            match operand(fb, &b, "b") {
+            let fa = c.i64();
+            let a = c.big();
+            let fb = c.i64();
+            let b = c.big();
+            (ta, va) = match operand(fa, &a, "a") {
                 Some(x) => x,
                 None => return vec!["9".into()],
-            }
-        };
+            };
+            (tb, vb) = if op == 6 {
+                (String::new(), Value::from(()))
+            } else {
+                match operand(fb, &b, "b") {
+                    Some(x) => x,
+                    None => return vec!["9".into()],
+                }
+            };
+        }
         let ctx = context! { a => va, b => vb };
         let eval = |src: &str| env.compile_expression(src).and_then(|e| e.eval(ctx.clone()));
         let mut out = vec![];
@@ -157,6 +184,7 @@ fn main() {
             5 => format!("{} ** {}", ta, tb),
             // unary minus binds tighter than `.v` / `[0]`
             6 => format!("-{}", if ta.starts_with('-') || ta.contains('.') || ta.contains('[') { format!("({})", ta) } else { ta }),
+            8 => ta.clone(),
             _ => return vec!["9".into()],
         };
         match eval(&src) {
